@@ -192,9 +192,13 @@ def run(prog: Program, ctx: Ctx) -> None:  # noqa: PLR0912,PLR0915
         cset = set(comp)
         graph_subjects = cset & GRAPH_RECURSIONS
         if not graph_subjects:
-            if not (cset & set(STRUCTURAL_RECURSIONS)):
+            if cset & set(STRUCTURAL_RECURSIONS):
+                continue
+            # an untabled recursion that follows alias links (reads .final_target / .target) walks the alias graph too: judged like the tabled ones
+            if not any(isinstance(n, ast.Attribute) and n.attr in ("final_target", "target") and isinstance(n.ctx, ast.Load)
+                       for q in cset for n in ast.walk(prog.functions[q].node)):
                 ctx.note(f"R1: untabled call-graph cycle (not judged): {sorted(cset)}")
-            continue
+                continue
         seen_graph |= graph_subjects
         # classify each intra-cycle edge as guarded or not; the cycle must be acyclic once guarded edges are removed
         remaining: dict[str, set[str]] = {}
@@ -218,6 +222,38 @@ def run(prog: Program, ctx: Ctx) -> None:  # noqa: PLR0912,PLR0915
     missing = GRAPH_RECURSIONS - seen_graph
     if missing:
         raise AnalysisError(f"C06-R1: tabled graph recursion(s) no longer form a cycle or vanished: {sorted(missing)}")
+    # recursion through property reads: `obj.p` where p is a property cannot carry a visited set.  A cycle of properties that passes through an Alias
+    # proxy (Alias.p -> self.final_target.p -> Object.p -> member.p -> Alias.p ...) never ends on a cyclic alias graph.
+    PROPERTY_CYCLES_TABLED = {
+        "_griffe.models.Alias.parameters": "Class.parameters reads its own `__init__` member: for that to be an alias leading back to the class, a class body would "
+                                           "have to import the class being defined (impossible at run time)",
+    }
+    padj: dict[str, set[str]] = {}
+    for f in fns:
+        for e in cg.edges_from(f):
+            if isinstance(e.callee, FunctionInfo) and e.callee.module.name in SCOPE_MODULES and (e.kind in ("prop", "call") or (
+                    e.kind == "cha" and len({m.cls.qualname for m in prog.methods_named(e.callee.name) if m.cls}) == 1)):
+                padj.setdefault(f.qualname, set()).add(e.callee.qualname)
+    alias_cls = prog.cls("_griffe.models.Alias")
+    n_pc = 0
+    for comp in _sccs([f.qualname for f in fns], padj):
+        cset = set(comp)
+        if len(comp) < 2 or cset & GRAPH_RECURSIONS or cset & set(STRUCTURAL_RECURSIONS):
+            continue
+        proxies = [q for q in comp if prog.functions[q].cls is alias_cls and prog.functions[q].is_property and any(
+            isinstance(n, ast.Attribute) and n.attr in ("final_target", "target") and dotted(n.value) == "self" for n in ast.walk(prog.functions[q].node))]
+        others = [q for q in comp if prog.functions[q].cls is not alias_cls]
+        if not proxies or not others:
+            continue
+        n_pc += 1
+        tabled = next((PROPERTY_CYCLES_TABLED[q] for q in proxies if q in PROPERTY_CYCLES_TABLED), None)
+        pf = prog.functions[proxies[0]]
+        ctx.ob("R1", f"property-cycle|{'|'.join(sorted(comp))}", tabled is not None,
+               f"tabled: {tabled}" if tabled else
+               f"the properties {sorted(q.split('.', 2)[-1] for q in comp)} call each other through the alias proxy {proxies[0].split('.', 2)[-1]} (which follows the "
+               "alias to its final target) and through member reads, with no way to remember what was visited: on an alias leading back to an object "
+               "being examined (a module re-exporting its own package) the recursion never ends", where(pf))
+    ctx.analysed["R1_property_cycles_through_alias_proxies"] = n_pc
     # final_target loop (paths_seen)
     ft = prog.function("_griffe.models.Alias.final_target")
     cfgf = cfg_of(ft)
@@ -345,8 +381,10 @@ def run(prog: Program, ctx: Ctx) -> None:  # noqa: PLR0912,PLR0915
         ("_griffe.mixins.SetMembersMixin.set_member", "self.members[v0[0]].set_member"):
             "dotted key through an alias raises to the API caller by design; loader call sites pass single names or are guarded",
         ("_griffe.loader.GriffeLoader.expand_exports", "v1.canonical_path"): "ExprName.canonical_path (isinstance-narrowed), not an alias proxy",
+        ("_griffe.extensions.dataclasses._expr_args", "v1.value"): "element of ExprCall.arguments (an expression or a string), never a member of the tree",
     }
-    scope = [f for f in prog.functions.values() if f.module.name in ("_griffe.loader", "_griffe.merger")
+    # (the dataclasses extension is always loaded and runs inside load(): an alias error escaping it aborts loading)
+    scope = [f for f in prog.functions.values() if f.module.name in ("_griffe.loader", "_griffe.merger", "_griffe.extensions.dataclasses")
              or f.qualname.startswith("_griffe.mixins.SetMembersMixin.set_member")]
     sites = ad.scan(scope, TABLED)
     n_sites = len(sites)
@@ -577,8 +615,10 @@ def _edge_guarded(prog: Program, cg: CallGraph, e: Edge, cset: set[str], edges) 
                 if sets and all(cfg.dominated_by_node(cn, lambda x, sets=sets: x in sets) for _ in [0]):
                     return True, f"re-entrancy flag `{flag}` tested false and set before the call"
     # (a1) site guard in the caller
+    from sa.rules.C12 import _short_circuit_facts  # facts from earlier operands of the same `and` / `or` / conditional expression
+
     for cn in cnodes:
-        facts = _expanded_facts(f, cn)
+        facts = _expanded_facts(f, cn) + _short_circuit_facts(e.site)
         for elem, coll in _neg_memberships(facts):
             ctext = unparse(coll)
             if ctext == "self.modules_collection":
